@@ -1,6 +1,6 @@
 (* C02 runner: the extracted models RH.Parse.Stream and RH.Parse.DesignFileLoop.
    usage: c02_run.native loop   one case per line on stdin, one result line per case
-            case  : `<kinds>|<records>`   kinds = kind_str of every token of the file, blank separated
+            case  : `<kinds>|<records>`   kinds = one character per token of the file (l u c e a f p b i s n, '.' = other)
                                           records = `idx,sliced(0/1),idx_after` joined by `;` (hook H3)
             result: `DONE <unit>:<len>,...|<idx>,<off>|<progress 0/1>`
                     `NOUNIT <idx> dropped=<n>|<progress>`    `ABORT fuel|<progress>`   `ABORT crash|<progress>`
@@ -63,6 +63,13 @@ let ukind_str = function
 let units_str us =
   Stdlib.String.concat "," (Stdlib.List.map (fun (k, v) -> Printf.sprintf "%s:%d" (ukind_str k) (Stdlib.List.length v)) us)
 
+(* one character per token (harness/src/bin/c02.rs): the kinds the dispatch looks at, '.' = any other *)
+let kind_of_code (c : char) : kind =
+  match c with
+  | 'l' -> K_LIBRARY | 'u' -> K_USE | 'c' -> K_CONTEXT | 'e' -> K_ENTITY | 'a' -> K_ARCHITECTURE
+  | 'f' -> K_CONFIGURATION | 'p' -> K_PACKAGE | 'b' -> K_BODY | 'i' -> KIdentifier | 's' -> K_IS
+  | 'n' -> K_NEW | _ -> KText
+
 let run_loop ln =
   let kinds, recs =
     match split_on '|' ln with
@@ -70,7 +77,7 @@ let run_loop ln =
     | [k] -> k, ""
     | _ -> failwith "bad loop case" in
   let z = (N0, N0) in
-  let toks = Stdlib.List.map (fun k -> mk_token (kind_of_str k) z z) (words kinds) in
+  let toks = Stdlib.List.init (Stdlib.String.length kinds) (fun i -> mk_token (kind_of_code kinds.[i]) z z) in
   let records =
     Stdlib.List.filter_map (fun r ->
       if r = "" then None else
